@@ -2420,6 +2420,14 @@ class RawAlgorithmsMixIn:
 
 
         D,P = x_data.shape[:2]
+        if x_data.ndim == 4:
+            # y = diagonal of a (possibly non-square) matrix
+            idx = numpy.arange(min(x_data.shape[2:]))
+            for d in range(D):
+                for p in range(P):
+                    out[d,p,idx,idx] += ybar_data[d,p]
+            return out
+
         for d in range(D):
             for p in range(P):
                 out[d,p] += numpy.diag(ybar_data[d,p])
